@@ -424,7 +424,67 @@ fn big_family<H: HistT>(rng: &mut Xoshiro256PlusPlus, reps: usize, prop: &str, r
     }
 }
 
+/// One heavy bin of exactly 2^53 (one add, `*= 2^53`) and one add in each of several other bins,
+/// heavy bin first and heavy bin last: the total is representable only as an integer, and a total
+/// accumulated in f64 stops seeing the single counts.  At this size the tolerance of the variance
+/// (4 u N = 4) is still below the effect (the number of light bins).
+fn heavy_light<H: HistT>(prop: &str, rep: &mut Report) {
+    let n = H::LEN;
+    if n < 7 {
+        return;
+    }
+    for heavy_first in [true, false] {
+        rep.behaviours += 1;
+        rep.nontrivial.insert(hash_str(&format!("heavylight{}{}", H::NAME, heavy_first)));
+        let edges: Vec<f64> = (0..=n).map(|i| i as f64).collect();
+        let heavy = if heavy_first { 0 } else { n - 1 };
+        let r = std::panic::catch_unwind(std::panic::AssertUnwindSafe(|| {
+            let mut h = H::from_ranges(edges.clone()).ok().unwrap();
+            let _ = h.add(heavy as f64 + 0.5);
+            h.mul_assign(1u64 << 53);
+            let mut model: Vec<u128> = vec![0; n];
+            model[heavy] = 1u128 << 53;
+            for i in 0..n {
+                if i != heavy && i % 2 == 0 || (i + 1 == n - 1 && i != heavy) {
+                    let _ = h.add(i as f64 + 0.5);
+                    model[i] += 1;
+                }
+            }
+            (h.bins(), h.variances(), (0..n).map(|i| h.variance(i)).collect::<Vec<f64>>(), model)
+        }));
+        let fail = |rep: &mut Report, acc: &str, what: String| {
+            rep.violation(json!({"property": prop, "family": "histogram", "type": H::NAME, "embedding": "large counts",
+                "history": {"edges": "0..LEN", "ops": ["add(heavy bin)", "*= 2^53", "one add in every other even bin"], "heavy_first": heavy_first},
+                "accessor": acc, "what": what, "signature": format!("{}|{}|heavylight-{}", prop, H::NAME, acc)}));
+        };
+        match r {
+            Err(_) => fail(rep, "panic", "the code under test panicked".into()),
+            Ok((bins, vs, v1, model)) => {
+                let total: u128 = model.iter().sum();
+                let t = total as f64;
+                rep.evaluations += 2 * n as u64 + 1;
+                if prop == "C13" && bins.iter().zip(&model).any(|(b, m)| *b as u128 != *m) {
+                    fail(rep, "bins", format!("bins {:?} but the operations give {:?}", bins, model));
+                    continue;
+                }
+                for i in 0..n {
+                    let want = hexact_variance(model[i], total);
+                    for (nm, v) in [("variances", vs[i]), ("variance", v1[i])] {
+                        let bad = if prop == "C17" { !(v >= -4.0 * U * t && v <= t / 4.0 * (1.0 + 4.0 * U)) } else { !((v - want).abs() <= 4.0 * U * t) };
+                        if bad {
+                            fail(rep, nm, format!("{nm}[{i}] = {:e} but n (N - n) / N = {:e} for n = {}, N = {}", v, want, model[i], total));
+                            return;
+                        }
+                    }
+                }
+            }
+        }
+    }
+}
+
 pub fn direct_histbig(prop: &str, seed: u64, reps: usize, rep: &mut Report) {
+    heavy_light::<average::Histogram10>(prop, rep);
+    heavy_light::<h100::Histogram>(prop, rep);
     let mut rng = Xoshiro256PlusPlus::seed_from_u64(seed);
     big_family::<h2::Histogram>(&mut rng, reps, prop, rep);
     big_family::<h3::Histogram>(&mut rng, reps, prop, rep);
